@@ -212,6 +212,98 @@ type pointInserter struct {
 	prefix string
 	n      int
 	labels *[]string
+	recv   string // receiver name of the method being instrumented
+	dn     int
+}
+
+// dbTouching: the statement contains (outside function literals) a call on the
+// pinned connection / transaction / pool, or a call of another method of the
+// store - i.e. it may run SQL. Used for the "#d" points, which exist where a
+// caller may hold the pooled connection: between two such statements another
+// process (a second handle on the file) can commit.
+func (p *pointInserter) dbTouching(n ast.Node) bool {
+	found := false
+	ast.Inspect(n, func(x ast.Node) bool {
+		if found {
+			return false
+		}
+		if _, ok := x.(*ast.FuncLit); ok {
+			return false
+		}
+		ce, ok := x.(*ast.CallExpr)
+		if !ok {
+			return true
+		}
+		se, ok := ce.Fun.(*ast.SelectorExpr)
+		if !ok {
+			return true
+		}
+		switch b := se.X.(type) {
+		case *ast.Ident:
+			switch {
+			case b.Name == "conn" || b.Name == "tx":
+				found = true
+			case p.recv != "" && b.Name == p.recv:
+				name := se.Sel.Name
+				if !strings.HasPrefix(name, "observe") && name != "now" && name != "nowFn" && !strings.HasPrefix(name, "record") {
+					found = true
+				}
+			}
+		case *ast.SelectorExpr:
+			if id, ok := b.X.(*ast.Ident); ok && p.recv != "" && id.Name == p.recv && b.Sel.Name == "db" {
+				found = true
+			}
+		}
+		return !found
+	})
+	return found
+}
+
+func (p *pointInserter) stmtD() ast.Stmt {
+	p.dn++
+	label := p.prefix + "#d" + strconv.Itoa(p.dn)
+	*p.labels = append(*p.labels, label)
+	return &ast.ExprStmt{X: &ast.CallExpr{
+		Fun:  &ast.SelectorExpr{X: ast.NewIdent("verifhook"), Sel: ast.NewIdent("Point")},
+		Args: []ast.Expr{&ast.BasicLit{Kind: token.STRING, Value: strconv.Quote(label)}},
+	}}
+}
+
+// instrumentListD: a "#d" point before every statement that may run SQL,
+// recursively; other statements are left alone.
+func (p *pointInserter) instrumentListD(list []ast.Stmt) []ast.Stmt {
+	out := make([]ast.Stmt, 0, len(list)+4)
+	for _, s := range list {
+		if _, isDefer := s.(*ast.DeferStmt); !isDefer && p.dbTouching(s) {
+			out = append(out, p.stmtD())
+			p.nestedD(s)
+		}
+		out = append(out, s)
+	}
+	return out
+}
+
+func (p *pointInserter) nestedD(s ast.Stmt) {
+	switch t := s.(type) {
+	case *ast.BlockStmt:
+		t.List = p.instrumentListD(t.List)
+	case *ast.IfStmt:
+		t.Body.List = p.instrumentListD(t.Body.List)
+		if t.Else != nil {
+			p.nestedD(t.Else)
+		}
+	case *ast.ForStmt:
+		t.Body.List = p.instrumentListD(t.Body.List)
+	case *ast.RangeStmt:
+		t.Body.List = p.instrumentListD(t.Body.List)
+	case *ast.SwitchStmt:
+		for _, c := range t.Body.List {
+			cc := c.(*ast.CaseClause)
+			cc.Body = p.instrumentListD(cc.Body)
+		}
+	case *ast.LabeledStmt:
+		p.nestedD(t.Stmt)
+	}
 }
 
 func (p *pointInserter) stmt() ast.Stmt {
@@ -233,7 +325,7 @@ func (p *pointInserter) instrumentList(list []ast.Stmt, connOnly bool) []ast.Stm
 			// From here on the function holds the pooled connection: a task
 			// parked beyond this statement would block every other task.
 			out = append(out, p.stmt(), s)
-			out = append(out, list[i+1:]...)
+			out = append(out, p.instrumentListD(list[i+1:])...)
 			return out
 		}
 		out = append(out, p.stmt())
@@ -412,12 +504,25 @@ func main() {
 						foundPoint[wk] = true
 					}
 				}
+				recv := ""
+				if fd.Recv != nil && len(fd.Recv.List) > 0 && len(fd.Recv.List[0].Names) > 0 {
+					recv = fd.Recv.List[0].Names[0].Name
+				}
 				if points[k] || optPoints[k] || wild {
 					foundPoint[k] = true
-					pi := &pointInserter{prefix: filepath.Base(dir) + "." + k.name, labels: &labels}
+					pi := &pointInserter{prefix: filepath.Base(dir) + "." + k.name, labels: &labels, recv: recv}
 					fd.Body.List = pi.instrumentList(fd.Body.List, connOnly[k])
 					usedPoint = true
 					changed = true
+				} else if dir == "internal/queue" && strings.HasPrefix(k.name, "SQLiteStore.") && name == "sqlite.go" {
+					// every other method of the SQLite store: "#d" points only
+					pi := &pointInserter{prefix: filepath.Base(dir) + "." + k.name, labels: &labels, recv: recv}
+					before := len(labels)
+					fd.Body.List = pi.instrumentListD(fd.Body.List)
+					if len(labels) > before {
+						usedPoint = true
+						changed = true
+					}
 				}
 			}
 			if !changed {
